@@ -48,6 +48,15 @@ def sources(tier, seed, ctx):
     for j in range(nrand):
         net = gen.random_netlist(rng, ni=rng.randint(1, 5), ng=rng.randint(1, 14))
         srcs.append({'k': 'trav', 'net': [net[0], net[1]], 'outs': gen.pick_outputs(rng, net[0], len(net[1])), 'variant': rng.choice(['plain', 'shuffle']), 'vs': rng.randrange(10**6), 'ts': rng.randrange(10**6)})
+    # labels are the user's: start sets given by labels that contain the characters of glob patterns, brackets, blanks, or that
+    # differ from another label only by such characters - a start label names exactly the gate that carries it
+    pat_labels = ['a[0]', 'a0', 'x*', 'xy', '?', 'q', 'b.c', 'bxc', '[ab]', 'a', ' ', '']
+    pat_net = [3, [['AND', [1, 2]], ['OR', [2, 3]], ['XOR', [4, 5]], ['NOT', [1]], ['AND', [6, 7]], ['NOT', [5]], ['OR', [8, 9]], ['NOT', [3]], ['AND', [10, 11]]]]
+    for shift in range(4):
+        labs = pat_labels[shift:] + pat_labels[:shift]
+        for l in labs:
+            srcs.append({'k': 'trav', 'net': pat_net, 'outs': [12, 9], 'variant': 'plain', 'labels': labs, 'start': [l], 'vs': shift, 'ts': shift * 31 + len(l)})
+        srcs.append({'k': 'trav', 'net': pat_net, 'outs': [12, 9], 'variant': 'plain', 'labels': labs, 'start': [labs[0], labs[5]], 'vs': shift, 'ts': shift})
     # circuits with a past: reached by a random history of public mutators (replace_subcircuit, connect, rename, remove,
     # blocks, into_bench, ...), then traversed - what a mutator leaves in the users index is what the traversals walk
     for j in range(250 if tier == 'quick' else 4000):
@@ -61,6 +70,9 @@ def sources(tier, seed, ctx):
     for depth in ([1500] if tier == 'quick' else [1500, 4000]):
         srcs.append({'k': 'deep', 'depth': depth})
         srcs.append({'k': 'deep', 'depth': depth, 'rev': True})
+    for big in ([300, 600] if tier == 'quick' else [250, 300, 520, 600, 1100, 2000]):
+        for loop in ('none', 'beside', 'consumes-output', 'under-outputs', 'self-beside'):
+            srcs.append({'k': 'cycle', 'big': big, 'loop': loop})
     ncyc = 600 if tier == 'quick' else 8000
     for j in range(ncyc):
         srcs.append({'k': 'cycle', 'seed': rng.randrange(10**9)})
@@ -106,6 +118,34 @@ def record(src):
     from cirbo.core.circuit.validation import check_circuit_has_no_cycles
     from cirbo.core.circuit.exceptions import CircuitValidationError
 
+    if src['k'] == 'cycle' and src.get('big'):
+        # hundreds of gates: a chain under the outputs plus, by choice, a loop beside it (not reachable from the outputs), a loop
+        # that only CONSUMES an output, a loop under the outputs, a self-loop
+        n = src['big']
+        lines = ['INPUT(x)', 'INPUT(y)'] + [f'g{k} = {"XOR" if k % 2 else "AND"}({"x" if k == 0 else f"g{k - 1}"}, y)' for k in range(n)]
+        kind = src['loop']
+        if kind == 'beside':
+            lines += ['p = AND(q, x)', 'q = OR(p, y)']
+        elif kind == 'consumes-output':
+            lines += [f'p = AND(q, g{n - 1})', 'q = NOT(p)']
+        elif kind == 'under-outputs':
+            lines[2 + n // 2] = f'g{n // 2} = AND(g{n // 2 - 1}, g{n // 2 + 3})'
+        elif kind == 'self-beside':
+            lines += ['p = AND(p, x)']
+        lines += [f'OUTPUT(g{n - 1})', f'OUTPUT(g{n // 3})']
+        c = Circuit.from_bench_string('\n'.join(lines) + '\n')
+        raised, other = False, ''
+        try:
+            check_circuit_has_no_cycles(c)
+        except CircuitValidationError:
+            raised = True
+        except Exception as e:
+            other = type(e).__name__
+        case = {'kind': 'cycle', 'c': project(c, users=False, blocks=False), 'raised': raised, 'src': src}
+        if other:
+            case['raised'] = False
+            case['other_exc'] = other
+        return case
     if src['k'] == 'cycle':
         r = random.Random(src['seed'])
         n_in, n_g = r.randint(1, 3), r.randint(1, 7)
@@ -200,7 +240,10 @@ def record(src):
             configs.append((mode, inv))
     for mode, inv in configs:
         startkind = r.choice(['default', 'one', 'two', 'default', 'default', 'empty'])
-        if startkind == 'empty':
+        if src.get('start'):
+            start = list(src['start'])
+            start_arg = list(start)
+        elif startkind == 'empty':
             start_arg, start = [], []        # the empty start set: nothing is reached, everything is unvisited
         elif startkind == 'default' or not labels:
             start_arg, start = None, (list(c.inputs) if inv else list(c.outputs))
